@@ -339,3 +339,105 @@ def closure_bodies_passed(body, cs):
                 if rv.get("kind") == "closure" and rv.get("def") in facts.bodies:
                     out.append(facts.bodies[rv["def"]])
     return out
+
+
+# ------------------------------------------------------------------------------------------
+# T12 error discipline: what happens to the result of a call
+# ------------------------------------------------------------------------------------------
+
+FOLLOW_RESULT = {"map_err", "map", "and_then", "or_else", "into", "from", "branch", "inspect_err"}
+
+
+def _local_uses(body, l):
+    """(kind, bb, info) for every read of local l as a whole operand or as a place base"""
+    uses = []
+    for i, blk in enumerate(body.blocks):
+        if body.is_cleanup(i):
+            continue
+        for j, st in enumerate(blk["st"]):
+            if st["s"] != "assign":
+                continue
+            rv = st["rv"]
+            ops = []
+            r = rv["r"]
+            if r in ("use", "cast", "repeat", "wrap_binder"):
+                ops = [rv["o"]]
+            elif r == "bin":
+                ops = [rv["a"], rv["b"]]
+            elif r == "un":
+                ops = [rv["a"]]
+            elif r == "agg":
+                ops = rv["fields"]
+            for o in ops:
+                pl = op_place(o)
+                if pl is not None and pl["l"] == l:
+                    uses.append(("assign", i, st))
+            if r in ("ref", "rawptr", "discr") and rv["pl"]["l"] == l:
+                uses.append((r, i, st))
+        t = blk["term"]
+        if t["t"] == "call":
+            for k, a in enumerate(t["args"]):
+                pl = op_place(a)
+                if pl is not None and pl["l"] == l:
+                    uses.append(("arg", i, k))
+        elif t["t"] == "drop" and t["pl"]["l"] == l and not t["pl"]["p"]:
+            uses.append(("drop", i, None))
+        elif t["t"] == "switch":
+            pl = op_place(t["on"])
+            if pl is not None and pl["l"] == l:
+                uses.append(("switch", i, None))
+    return uses
+
+
+def result_uses(body, call_bb, _depth=0, _local=None):
+    """how the result of the call ending call_bb is consumed: subset of
+    {'?', 'match', 'returned', 'ok()-discarded', 'ok()-used', 'unwrap', 'dropped', 'unused',
+     'passed:<callee>', 'stored'}"""
+    out = set()
+    if _local is None:
+        cs = body.call_at(call_bb)
+        d = cs.dest
+        if d["p"]:
+            return {"stored"}
+        l = d["l"]
+    else:
+        l = _local
+    if l == 0:
+        return {"returned"}
+    if _depth > 8:
+        return {"deep"}
+    uses = _local_uses(body, l)
+    real = [u for u in uses if u[0] != "drop"]
+    if not real:
+        return {"dropped" if uses else "unused"}
+    for kind, bb, info in real:
+        if kind == "discr" or kind == "switch":
+            out.add("match")
+        elif kind == "assign":
+            st = info
+            if st["pl"]["p"]:
+                out.add("stored")
+            else:
+                out |= result_uses(body, call_bb, _depth + 1, st["pl"]["l"])
+        elif kind in ("ref", "rawptr"):
+            st = info
+            out |= {x for x in result_uses(body, call_bb, _depth + 1, st["pl"]["l"]) if x not in ("dropped", "unused")} or {"match"}
+        elif kind == "arg":
+            c2 = body.call_at(bb)
+            n = c2.name
+            if n == "branch":
+                out.add("?")
+            elif n in ("unwrap", "expect", "unwrap_unchecked"):
+                out.add("unwrap")
+            elif n == "ok" and c2.path and "Result" in c2.path:
+                sub = result_uses(body, bb)
+                out.add("ok()-discarded" if sub <= {"dropped", "unused"} else "ok()-used")
+            elif n in FOLLOW_RESULT:
+                out |= result_uses(body, bb)
+            elif n in ("is_err", "is_ok"):
+                out.add("match")
+            elif n == "drop":
+                out.add("dropped")
+            else:
+                out.add("passed:" + (c2.describe()))
+    return out
